@@ -301,7 +301,16 @@ static void runScenario(uint64_t caseNo, Rng & rng, const char * cfgName)
 		s.nth = 1 + (int)rng.below(3);
 		s.delayUs = 300 + (int)rng.below(1500);
 		s.pRandom = (int)(100 + rng.below(300));
-		if(rng.chance(2, 3)) {
+		if(QTraits<Q>::hasDqn && rng.chance(1, 4)) {
+			// template 5: the ONE enqueue is made inside a DisableQueueNotify scope; ending the scope is the only thing that can wake the
+			// waiter, and it decides whether to notify while the poller keeps taking the event out and putting it back
+			count("template5_scenarios");
+			sc.steps[0] = 1; sc.plan[0][0] = (uint32_t)(1 | ((300 + rng.below(1000)) << 4)); // depth 1, one event, pause inside
+			s.tag = tags().idOf("atomic.load.racy"); s.nth = 1; s.delayUs = 300 + (int)rng.below(1500);
+			s.tag2 = tags().idOf("q.dqn.after-dec"); s.nth2 = 1; s.delayUs2 = (int)rng.below(300);
+			s.pRandom = (int)rng.below(60);
+		}
+		else if(rng.chance(2, 3)) {
 			// the sharpest form: ONE enqueue in the whole scenario; the enqueuer is delayed after releasing the queue mutex (the poller
 			// takes the event out) and again before the second of its unlocked reads (the poller puts the event back)
 			sc.steps[0] = 1; sc.plan[0][0] = 0;
@@ -400,8 +409,8 @@ static void runScenario(uint64_t caseNo, Rng & rng, const char * cfgName)
 			}
 		}
 		if(! quiescent) {
-			const std::string cyc = findLockCycle();
-			if(! cyc.empty()) violation("deadlock:lock-cycle", cyc);
+			std::string dkey; const std::string cyc = findDeadlock(dkey);
+			if(! cyc.empty()) violation(dkey, cyc);
 			else oplog("INCONCLUSIVE: scenario did not reach quiescence within 15 s (parked=" + num((long long)cv.parkedCount()) + ", dispatched=" + num(S->dispatched.load()) + "/" + num(S->enqueued.load()) + ")");
 			writeResult();
 			_exit(cyc.empty() ? 4 : 3);
